@@ -18,6 +18,8 @@ import PgProofs.C05Handles
 import PgProofs.C05Dna
 import PgProofs.C05Opts
 import PgProofs.C05Auto
+import PgProofs.C05SpecRT
+import PgProofs.C05Geno
 namespace Pg.C05
 
 /-! ## T-SIG: value specs can be rebuilt from what `to_json` emits -/
@@ -194,6 +196,46 @@ theorem C05_unknown_type :
     simp [fromJsonAuto, autoDict, autoDictKV, jlookup, noClasses, ClassEnv.find, dsetK, fromJ, fromJKV, e, e2, e3,
       e.symm, e2.symm, e3.symm]
 
+/-! ### `auto_import` -/
+
+/-- The classes the loader can see: the registry, plus — with `auto_import=True` — the classes
+that are importable by module and qualified name although not registered
+(`auto_register = False`). -/
+def importEnv (registered : ClassEnv) (importable : List (Str × List Field)) (autoImport : Bool) : ClassEnv :=
+  if autoImport then ⟨registered.classes ++ importable⟩ else registered
+
+/-- A `_type` that names no class the loader can see is a TypeError, whatever else the dict holds
+(strict loader: `auto_import=False`, or not importable either). -/
+theorem C05_unregistered_class (env : ClassEnv) (ap : Bool) (c : Str) (rest : List (Key × JV))
+    (h : env.find c = none) :
+    fromJson env ap (.obj ((.s typeKey, .str c) :: rest)) = .error .type := by
+  simp [fromJson, resolveOk, jlookup, h]
+
+/-- Registered classes keep their schema when the importable ones are added … -/
+theorem importEnv_find (reg : ClassEnv) (imp : List (Str × List Field)) (c : Str) (fs : List Field)
+    (h : reg.find c = some fs) : (importEnv reg imp true).find c = some fs := by
+  simp only [importEnv, if_true, ClassEnv.find] at h ⊢
+  rw [List.find?_append]
+  cases hf : reg.classes.find? (fun p => p.1 == c) with
+  | none => simp [hf] at h
+  | some p => simpa [hf] using h
+
+/-- … and with `auto_import=True` every value over registered *and* importable classes round-trips
+(the round-trip theorem at the enlarged environment), while the same JSON is a TypeError for the
+strict loader as soon as it mentions an importable-only class at the top. -/
+theorem C05_auto_import_roundtrip (reg : ClassEnv) (imp : List (Str × List Field))
+    (hwf : (importEnv reg imp true).WF = true) (ap : Bool) (t : Tree)
+    (hc : Conforms (importEnv reg imp true) t = true) (he : Encodable false t = true)
+    (hm : ap = true ∨ NoMissing t = true) :
+    fromJson (importEnv reg imp true) ap (toJson (importEnv reg imp true) t) = .ok t :=
+  C05_roundtrip _ hwf ap t hc he hm
+
+theorem C05_auto_import_off (reg : ClassEnv) (imp : List (Str × List Field)) (ap : Bool) (c : Str)
+    (attrs : List (Str × Tree)) (h : reg.find c = none) :
+    fromJson (importEnv reg imp false) ap (toJson (importEnv reg imp true) (.obj c attrs)) = .error .type := by
+  simp only [importEnv, Bool.false_eq_true, if_false, toJson]
+  exact C05_unregistered_class reg ap c _ h
+
 /-! ## Codec: string form (`n_:` int keys) over an abstract JSON text layer -/
 
 /-- F11c: in the string form a str key that starts with `n_:` is indistinguishable from an int key:
@@ -265,6 +307,73 @@ theorem C05_key_codec_counterexample :
     encKey (.s "n_:5".toList) = encKey (.i 5) ∧ Key.s "n_:5".toList ≠ Key.i 5 := by
   refine ⟨?_, by decide⟩
   simp [encKey, intKeyPrefix, reprInt, natDigits, digitChar]
+
+/-! ## pg.typing value specs, fields, key specs, schemas -/
+
+/-- ROUND TRIP for value specs, by mutual structural induction over specs / element lists /
+fields / schemas: for every well-formed spec state (`VSOK`: defaults, enum values and metadata are
+plain encodable values; the derived bits are what the constructors compute) of any nesting depth —
+Any Bool Int Float Str Enum List Tuple (fixed / variable) Dict (schema-less / with schema) Object
+Type Union Callable, with noneable / default / frozen / ranges / regex / sizes —
+`from_json(to_json(spec))` rebuilds the same state. `to_json` is
+`to_json_dict(exclude_default=True)` per class; loading decodes the children first and then calls
+`cls(**kwargs)`. -/
+theorem C05_spec_roundtrip (env : ClassEnv) (s : VS) (h : VSOK s = true) :
+    specFromJson (vsToJson env s) = .ok s := by
+  simp only [specFromJson, vs_rt env s h]
+
+/-- … the same for a `Schema` (class schemas included: name, `allow_nonconst_keys`, metadata), a
+`Field` (description, metadata) and every key spec (ConstStrKey, StrKey, ListKey, TupleKey). -/
+theorem C05_schema_roundtrip (env : ClassEnv) (sc : VSchema) (h : schemaOK sc = true) :
+    decodeU (schemaToJson env sc) = .ok (.schema sc) := schema_rt env sc h
+
+theorem C05_field_roundtrip (env : ClassEnv) (f : VField) (h : fieldOK f = true) :
+    decodeU (fieldToJson env f) = .ok (.field f) := field_rt env f h
+
+theorem C05_keyspec_roundtrip (k : VKey) : decodeU (keyToJson k) = .ok (.key k) := key_rt k
+
+/-- "Every spec state loads back" … -/
+def C05_spec_Full : Prop := ∀ (env : ClassEnv) (s : VS), specFromJson (vsToJson env s) = .ok s
+
+/-- … is false (F230): `Tuple(spec, max_size=0)` is a fixed tuple of zero elements, written as
+`element_values: []`, which `Tuple.__init__` rejects (ValueError). -/
+theorem C05_spec_counterexample : ¬ C05_spec_Full := by
+  intro h
+  have := h noClasses (.tupleFixed [] ⟨false, none, false⟩)
+  have e : specFromJson (vsToJson noClasses (.tupleFixed [] ⟨false, none, false⟩)) = .error .value := by
+    simp (decide := true) [specFromJson, vsToJson, vsToJsonL, dE, oE, fE, decodeU, finishObj, finishArr, decodeUKV,
+      decodeUL, jlookup, buildU_Tuple, buildTuple, keysIn, gFlags, gPlain, gBool, gOptInt, ulookup, List.filter, uSpecs]
+  rw [e] at this
+  cases this
+
+/-- Non-vacuity: `Dict([('a', List(Int(min_value=0, default=1), max_size=3)), (StrKey('k.*'),
+Union([Str(regex='a.*').noneable(), Enum(None, [None, 'x'])]))])` is well formed. -/
+example : VSOK (.dict (some (.mk
+    [.mk (.const ['a']) (.list (.int (some 0) none ⟨false, some (.leaf (.int 1)), false⟩) 0 (some 3) ⟨false, none, false⟩) none none,
+     .mk (.strKey (some "k.*".toList))
+       (.union [.str (some "a.*".toList) ⟨true, some (.leaf .none), false⟩,
+                .enum [.leaf .none, .leaf (.str ['x'])] ⟨true, some (.leaf .none), false⟩] ⟨false, none, false⟩) none none]
+    none true none)) false ⟨false, none, false⟩) = true := by
+  simp [VSOK, VSOKL, schemaOK, fieldsOK, fieldOK, flagsOK, optPlainOK, plainOK, plainOKL, isNoneLeaf,
+    startsWithTupleMarker]
+
+/-! ## DNASpec (`pg.geno.Space / Choices / Float / CustomDecisionPoint`) -/
+
+/-- ROUND TRIP for search-space specifications: for every DNASpec of the shared geno model
+(`PgModel/Geno/Spec.lean`: nested conditional spaces, multi-choices, floats, custom points, names,
+locations, literal values — any depth) the object tree `pg.to_json` walks conforms to the class
+schemas of geno and holds no reserved shape, hence loads back unchanged, in the object form … -/
+theorem C05_dnaspec_roundtrip (gt : GenoText) (hgt : gt.OK) (g : Geno.Spec) (ap : Bool) :
+    fromJson genoEnv ap (toJson genoEnv (specTree gt g)) = .ok (specTree gt g) := by
+  obtain ⟨h1, h2, h3⟩ := spec_good gt hgt g
+  exact C05_roundtrip genoEnv genoEnv_wf ap _ h1 h2 (.inr h3)
+
+/-- … and under every combination of `hide_frozen` / `hide_default_values` (the defaults of
+`hints`, `name`, `literal_values`, `index`, … are then left out and restored by the schema). -/
+theorem C05_dnaspec_roundtrip_opts (o : JOpts) (gt : GenoText) (hgt : gt.OK) (g : Geno.Spec) (ap : Bool) :
+    fromJson genoEnv ap (toJsonO o genoEnv (specTree gt g)) = .ok (specTree gt g) := by
+  obtain ⟨h1, h2, h3⟩ := spec_good gt hgt g
+  exact C05_roundtrip_opts o genoEnv genoEnv_wf ap _ h1 h2 (.inr h3)
 
 /-! ## `pg.DNA` (compact JSON form, root metadata) -/
 
